@@ -213,6 +213,31 @@ func (p *Program) resolveRoles() {
 	}
 }
 
+// roleRemoved: "Type.field" names a role (fieldRoles) and the struct has, also through its parts, no field of
+// the role's type at all.
+func (p *Program) roleRemoved(typeField string) (bool, string) {
+	for _, r := range fieldRoles {
+		if r.typ+"."+r.field != typeField {
+			continue
+		}
+		tn := p.LookupType(r.pkg, r.typ)
+		if tn == nil {
+			return false, ""
+		}
+		nt, ok := tn.Type().(*types.Named)
+		if !ok {
+			return false, ""
+		}
+		for _, f := range p.deepFields(nt, 0) {
+			if typeStr(f.Type()) == r.typeStr || typeStr(f.Type()) == "*"+r.typeStr || "*"+typeStr(f.Type()) == r.typeStr {
+				return false, ""
+			}
+		}
+		return true, r.typeStr
+	}
+	return false, ""
+}
+
 // fieldsUsedBy: the struct fields selected in the body of f and of the glue it calls.
 func (p *Program) fieldsUsedBy(f *types.Func, depth int, seen map[*types.Func]bool) map[*types.Var]bool {
 	out := map[*types.Var]bool{}
